@@ -274,8 +274,9 @@ def finaliser_range(ctx, func, notes, stack=()):
     weight = {}
     for c, r in q.calls_in(ctx, func):
         ev = _events_in_call(ctx, c, func, r, notes)
-        if ev is None and r.kind == 'package' and isinstance(c.func, ast.Attribute) and isinstance(c.func.value, ast.Name) \
-                and c.func.value.id == 'self' and func.cls is not None:
+        via_self = isinstance(c.func, ast.Attribute) and isinstance(c.func.value, ast.Name) and c.func.value.id == 'self'
+        via_alias = isinstance(c.func, ast.Name) and c.func.id not in func.params  # a local bound to self.<helper> (possibly one of several)
+        if ev is None and r.kind == 'package' and (via_self or via_alias) and func.cls is not None:
             # helper of the same class hierarchy
             rngs = [finaliser_range(ctx, t, notes, stack + (func,)) for t in r.targets
                     if t.cls is not None and (t.cls in func.cls.mro() or func.cls in t.cls.mro()) and t.name != '__init__']
